@@ -295,6 +295,30 @@ func c16Coeff(c *Ctx) {
 					}
 				}
 			}
+			// the triangle belongs to the caller: overwrite every entry (over full capacity), then ask again for this
+			// and the next size - the new triangles must be Pascal's triangle all the same
+			for _, row := range rows {
+				row = row[:cap(row)]
+				for i := range row {
+					row[i] = -7
+				}
+			}
+			for _, n2 := range []int{nn, nn + 1, nn / 2} {
+				if n2 > 66 {
+					continue
+				}
+				var again [][]int
+				if msg, p := try(func() { again = comb.Coeffs(n2) }); p {
+					return &Failure{Class: "comb/Coeffs/panic", What: fmt.Sprintf("Coeffs(%d) after an earlier result was overwritten: %s", n2, msg), Kind: "coeffs", Replay: nn}
+				}
+				for m, row := range again {
+					for k, v := range row {
+						if w := bigBinom(uint64(m), uint64(k)); len(again) != n2+1 || !w.IsInt64() || w.Int64() != int64(v) {
+							return &Failure{Class: "comb/Coeffs/result-shares-storage-with-earlier-result", What: fmt.Sprintf("after the caller overwrote the triangle returned by Coeffs(%d), Coeffs(%d)[%d][%d] = %d want %s", nn, n2, m, k, v, w), Kind: "coeffs", Replay: nn}
+						}
+					}
+				}
+			}
 			return nil
 		})
 	}
@@ -366,9 +390,13 @@ var unrankNotEvaluated int64
 
 // checkUnrank evaluates Unrank(r,k); hang-prone inputs run under a deadline in a goroutine.
 func checkUnrank(r, k int, deadline time.Duration) *Failure {
+	return checkUnrankBudget(r, k, deadline, unrankStepBudget)
+}
+
+func checkUnrankBudget(r, k int, deadline time.Duration, budget float64) *Failure {
 	want, steps, overflows := unrankOracle(r, k)
 	rc := rankCase{Fn: "Unrank", R: r, K: k}
-	if steps > unrankStepBudget {
+	if steps > budget {
 		return nil // a linear walk longer than the stated step bound: not evaluated
 	}
 	hcls, hidx := "comb/Unrank/does-not-terminate", 0
@@ -609,6 +637,30 @@ func c16Rank(c *Ctx) {
 			c.Nontrivial(1)
 		}
 	})
+	// k = 2 far beyond 2^53 (where float64 stops being exact): r around C(L,2) for L = 2^j+1; these walks are
+	// 7e7..1.4e8 steps (2^31 in thorough), beyond the general step bound, so they are a short explicit list
+	{
+		js := []int{26, 27}
+		if c.Thorough() {
+			js = []int{26, 27, 28, 29, 30, 31}
+		}
+		var lw []rk
+		for _, j := range js {
+			L := 1<<uint(j) + 1
+			base := L * (L - 1) / 2
+			for _, d := range []int{-2, -1, 0, 1} {
+				lw = append(lw, rk{base + d, 2})
+			}
+		}
+		c.parFor(int64(len(lw)), 1, func(lo, hi int64) {
+			for _, t := range lw[lo:hi] {
+				t := t
+				c.Check(func() *Failure { return checkUnrankBudget(t.r, t.k, 0, 5e9) })
+				c.Nontrivial(1)
+			}
+		})
+		c.SetCount("unrank_long_walk_probes_k2", int64(len(lw)))
+	}
 	c.Count("unrank_calls_not_evaluated_after_six_hangs", atomic.LoadInt64(&unrankNotEvaluated))
 	// Rank on subsets with large elements: exact, or the documented overflow panic - never a wrong value
 	var bigSets [][]int
